@@ -980,6 +980,8 @@ func (r *reader) pushToken(src []byte) {
 	r.push(obj)
 }
 
+var decimalIntRegex = regexp.MustCompile(`^[-+]?[0-9]+\.$`)
+
 func (r *reader) resolveToken(token []byte) Object {
 	buf := bytes.ToLower(token)
 	switch {
@@ -995,6 +997,15 @@ func (r *reader) resolveToken(token []byte) Object {
 			if t, err := time.ParseInLocation(layout, s, time.UTC); err == nil {
 				return Time(t)
 			}
+		}
+	case decimalIntRegex.Match(buf):
+		// A trailing point makes the integer decimal whatever *read-base* is.
+		buf = buf[:len(buf)-1]
+		if num, err := strconv.ParseInt(string(buf), 10, 64); err == nil {
+			return Fixnum(num)
+		}
+		if bi, ok := big.NewInt(0).SetString(string(buf), 10); ok {
+			return (*Bignum)(bi)
 		}
 	case r.intRx.Match(buf):
 		buf = bytes.TrimRight(buf, ".")
